@@ -31,6 +31,8 @@ import (
 // Case is fully materialised so that a replay does not depend on the world.
 type Case struct {
 	Class      string `json:"class"`
+	AnonLen    *int   `json:"anonymous_origin_len,omitempty"` // default 32
+	HonestCK   string `json:"honest_client_key,omitempty"`    // client key of the pre-verified honest request (default: the case's)
 	RequestKey string `json:"request_key"`
 	NameKeyID  string `json:"name_key_id"`
 	Encrypted  string `json:"encrypted_token_request"`
@@ -117,6 +119,13 @@ func dumpCache(c *px.MemCache) string {
 	return sb.String()
 }
 
+func anonOf(c Case) []byte {
+	if c.AnonLen == nil {
+		return make([]byte, 32)
+	}
+	return mc.Fill(seedv, "c06-anon", *c.AnonLen)
+}
+
 func run(c Case) (string, *mc.Viol) {
 	cache := px.NewMemCache()
 	att := type3.NewRateLimitedAttester(cache)
@@ -128,6 +137,9 @@ func run(c Case) (string, *mc.Viol) {
 			return "harness", nil
 		}
 		hbl, hck := unhex(c.HonestBl), unhex(c.ClientKey)
+		if c.HonestCK != "" {
+			hck = unhex(c.HonestCK)
+		}
 		if err := att.VerifyRequest(*hr, hbl, hck, make([]byte, 32)); err != nil {
 			// the client key itself may be the mutated argument; then there is nothing registered, fine
 			_ = err
@@ -167,7 +179,7 @@ func run(c Case) (string, *mc.Viol) {
 		req = o
 	}
 	var err error
-	if p := mc.Catch(func() { err = att.VerifyRequest(req, blindArg, ckArg, make([]byte, 32)) }); p != "" {
+	if p := mc.Catch(func() { err = att.VerifyRequest(req, blindArg, ckArg, anonOf(c)) }); p != "" {
 		if len(req.EncryptedTokenRequest) > 65535 && cache.Puts == puts && dumpCache(cache) == before {
 			// a request that has no wire encoding can only be built in the attester's own process; the
 			// statement is about requests, i.e. what a peer can send: not accepting it is what counts
@@ -182,6 +194,13 @@ func run(c Case) (string, *mc.Viol) {
 	switch {
 	case err == nil && !want:
 		return "accept/ref-reject", &mc.Viol{Sig: "VerifyRequest accepts a request that is not authentic: " + why, What: fmt.Sprintf("class %s: VerifyRequest returned nil; reference: %s", c.Class, why)}
+	case err != nil && want && c.AnonLen != nil:
+		// the statement is an "only if": refusing an authentic request because of an anonymous origin
+		// id of unusual length is not forbidden - but a refused request must not leave state behind
+		if cache.Puts != puts || dumpCache(cache) != before {
+			return "reject-but-state-changed", &mc.Viol{Sig: "a rejected request created or altered client state in the cache", What: fmt.Sprintf("class %s: puts %d -> %d (%v)", c.Class, puts, cache.Puts, err)}
+		}
+		return "reject:anonymous origin id of unusual length refused, no state touched", nil
 	case err != nil && want:
 		return "reject/ref-accept", &mc.Viol{Sig: "VerifyRequest rejects an authentic request", What: fmt.Sprintf("class %s: %v", c.Class, err)}
 	}
@@ -388,6 +407,34 @@ func main() {
 			c = mk(o, tag+"other-request-with-own-blind-and-key")
 			c.Blind, c.ClientKey = hex.EncodeToString(h.blind), hex.EncodeToString(h.clientKey)
 			add(c)
+		}
+		// the anonymous origin id is the attester's own bookkeeping value and has no bearing on whether
+		// the request is authentic: honest requests under ids of other lengths, corrupted ones too
+		for _, n := range []int{0, 1, 31, 33, 64} {
+			n := n
+			c := mk(h, tag+fmt.Sprintf("honest:anonymous-origin-of-%d-bytes", n))
+			c.AnonLen = &n
+			add(c)
+			c = mk(h, tag+fmt.Sprintf("bitflip:signature:anonymous-origin-of-%d-bytes", n))
+			c.AnonLen = &n
+			c.Signature = hex.EncodeToString(flip(h.req.Signature, 77))
+			add(c)
+		}
+		// after the honest request was accepted: the same bytes of client key and blind cut at another
+		// place (client key takes the first blind byte)
+		{
+			c := mk(h, tag+"client-key-and-blind-cut-differently:registered")
+			c.ClientKey = hex.EncodeToString(append(append([]byte{}, h.clientKey...), h.blind[0]))
+			c.Blind = hex.EncodeToString(h.blind[1:])
+			c.PreVerify, c.HonestReq, c.HonestBl = true, hex.EncodeToString(h.reqBytes), hex.EncodeToString(h.blind)
+			c.HonestCK = hex.EncodeToString(h.clientKey)
+			add(c)
+			c2 := mk(h, tag+"client-key-and-blind-cut-differently:registered")
+			c2.ClientKey = hex.EncodeToString(h.clientKey[:len(h.clientKey)-1])
+			c2.Blind = hex.EncodeToString(append([]byte{h.clientKey[len(h.clientKey)-1]}, h.blind...))
+			c2.PreVerify, c2.HonestReq, c2.HonestBl = true, hex.EncodeToString(h.reqBytes), hex.EncodeToString(h.blind)
+			c2.HonestCK = hex.EncodeToString(h.clientKey)
+			add(c2)
 		}
 		// fields of another length than the wire format gives them (the request is handed over as a
 		// struct): whatever is carried is what the signature must cover
